@@ -362,6 +362,15 @@ class MetaHook(type):
         return '<class %s>' % cls.__name__
 
 
+class MetaHashHook(MetaHook):
+    """Additionally makes hashing the CLASS a scenario callback: a hook that raises there models a class that is not
+    hashable (metaclass with __eq__ and no __hash__) -- the engine keys classes by address, the Python-side table by hash."""
+
+    def __hash__(cls):
+        _h('cls.__hash__')
+        return type.__hash__(cls)
+
+
 class TM(tuple, metaclass=MetaHook):
     """tuple subclass with instrumented metaclass: looks like a namedtuple candidate to the engine."""
 
